@@ -92,4 +92,31 @@ PLAN = {
         runs=[dict(variant="", flavour="asan", quick=dict(cases=16000, size=60, shards=16, budget=40),
                    thorough=dict(cases=200000, size=100, shards=16, budget=600))],
     ),
+    "C16": dict(
+        rule=("(a) stateful with two objects and two reference models: the original gets all five integer and three numeric "
+              "parameters set, then interleaved {copy either way, switch object, free one, edit, solve}; right after each copy the "
+              "copy must equal the original in every datum, name, objective sense and every parameter; after every later op each "
+              "object must still equal its OWN model whatever happened to the other (freeing one of them under ASan exposes shared "
+              "memory). (b) QScopy_prob_mpq_dbl and (c) QScopy_prob_mpq_mpf at 64/128/512 bits: same counts, structure, senses, "
+              "parameters; each finite number within one ulp of the double (resp. 2^-(prec-1) relative), infinities mapped to the "
+              "target type's infinity, zeros to zeros. Non-trivial = both objects edited/solved after the copy (a) or a non-empty "
+              "problem (b,c)."),
+        technique="stateful model-based PBT with two models; entrywise conversion-error oracle for reduced-precision copies",
+        min_nontrivial=dict(quick=300, thorough=3000),
+        runs=both("", dict(cases=5000, size=100, budget=35), dict(cases=150000, size=150, budget=600), 6, 6) +
+             [dict(variant="dbl", flavour="asan", quick=dict(cases=2000, size=100, shards=2, budget=30), thorough=dict(cases=60000, size=150, shards=8, budget=300)),
+              dict(variant="mpf", flavour="asan", quick=dict(cases=2000, size=100, shards=2, budget=30), thorough=dict(cases=60000, size=150, shards=8, budget=300))],
+    ),
+    "C18": dict(
+        rule=("each case runs in a forked child on the ASan build with GMP routed through malloc: (hist) edit/solve/copy/load-basis "
+              "histories as in C05 incl. infeasible, unbounded and iteration-limited outcomes and the solve-from-scratch twin, (bad) "
+              "every invalid-call probe of C07; then every problem, basis, array is freed, QSexactClear() is called, the stack is "
+              "scrubbed and __lsan_do_recoverable_leak_check() must report nothing. Signature = the two innermost library frames "
+              "of the first leak. Non-trivial = history with a non-OPTIMAL solve or a failing call; distinct = distinct case text / "
+              "probe cell."),
+        technique="PBT with per-case LeakSanitizer oracle after full teardown",
+        min_nontrivial=dict(quick=300, thorough=3000),
+        runs=[dict(variant="hist", flavour="asan", quick=dict(cases=3000, size=100, shards=10, budget=40), thorough=dict(cases=100000, size=150, shards=12, budget=900)),
+              dict(variant="bad", flavour="asan", quick=dict(cases=6000, size=60, shards=6, budget=40), thorough=dict(cases=60000, size=100, shards=4, budget=600))],
+    ),
 }
